@@ -66,7 +66,8 @@ pub struct ValidCase {
     pub finish: u8,
     /// illegal calls sprinkled into the history: (position selector, kind). They must be rejected and leave no trace.
     /// kind 0: video re-submitting the previous video timestamp; 1: empty video frame; 2: audio with invalid framing at a
-    /// later time; 3: audio earlier than the previous audio; 4: video with NaN timestamp
+    /// later time; 3: audio earlier than the previous audio; 4: video with NaN timestamp; 5: reordered video frame whose decode
+    /// time does not advance
     #[serde(default)]
     pub rejects: Vec<(u8, u8)>,
     /// false: composition offsets of the genes are ignored (pts == dts everywhere)
@@ -256,6 +257,42 @@ pub fn long_cases(huge: bool) -> Vec<ValidCase> {
         long_case(long_cfg(0, 1, false), 1_790_000_000u64 * 90_000, 0, 1, ex(30, 45)),
         long_case(long_cfg(2, 0, true), (1u64 << 50) - 6_000, 0, 0, ex(12, 0)),
     ];
+    // a slideshow whose audio arrives in batches: 25 running packets per video frame and then three packets stamped with
+    // exactly the next frame's time (several ties at the end of a long audio run)
+    {
+        let mut c = long_case(long_cfg(2, 7, true), 0, 0, 1, ex(0, 0));
+        c.expand = None;
+        c.video = (0..4u32).map(|i| VGene { ddts: 45_000, cts: 0, key: i == 0, size: 40, shape: 0, jit: 0, big: 0 }).collect();
+        let mut audio = Vec::new();
+        for k in 0..3u32 {
+            for i in 0..25u32 {
+                audio.push(AGene { dpts: if k == 0 && i == 0 { 0 } else { 1800 }, size: 20 + (i % 7) as u16 * 3 + 1, shape: 3, jit: 0 });
+            }
+            // three packets on the frame's tick: the first closes the run (dpts 1800), two more share its time
+            audio.push(AGene { dpts: 1800, size: 31, shape: 3, jit: 0 });
+            audio.push(AGene { dpts: 0, size: 33, shape: 3, jit: 0 });
+            audio.push(AGene { dpts: 0, size: 35, shape: 3, jit: 0 });
+            // back onto the 1800 grid after the tie: nothing to do, the next packet advances by 1800
+        }
+        // the run above counts 26 steps of 1800 per frame (46 800 ticks); make the frames 46 800 apart so that the ties are exact
+        for g in c.video.iter_mut() {
+            g.ddts = 46_800;
+        }
+        c.audio = audio;
+        v.push(c.clone());
+        c.cfg = long_cfg(0, 1, false);
+        c.order = 5;
+        v.push(c);
+    }
+    // a constant decoder delay of two frames on a long constant-rate recording with audio (no reordering)
+    {
+        let mut c = long_case(long_cfg(1, 1, true), 0, 0, 1, ex(0, 0));
+        c.expand = None;
+        c.reorder = true;
+        c.video = (0..300u32).map(|i| VGene { ddts: 3000, cts: 6000, key: i % 30 == 0, size: 19, shape: (i * 37 % 256) as u8, jit: 0, big: 0 }).collect();
+        c.audio = (0..460u32).map(|i| AGene { dpts: 1920, size: 17, shape: (i * 29 % 256) as u8, jit: 0 }).collect();
+        v.push(c);
+    }
     if huge {
         // more than 2^20 video samples; the audio starts after video sample 2^20 and every audio sample ties with a video sample
         v.push(long_case(
@@ -597,6 +634,15 @@ pub fn audio_frame(cfg: &CfgGene, g: &AGene, idx: usize) -> (Vec<u8>, Vec<u8>) {
         };
         return (p.clone(), p);
     }
+    if cfg.audio % 8 != 7 && cfg.audio % 8 != 0 && g.size % 32 == 7 {
+        // "packed audio" as in HLS .aac segments: an ID3v2 tag alone, or in front of the ADTS frame.  Whether the library takes
+        // such a buffer is its decision (the unmodified one does not); if a call is accepted its sample must exist.
+        let mut v = b"ID3\x04\x00\x00".to_vec();
+        let body = filler(10 + (idx % 20) as usize, tag, 0);
+        v.extend_from_slice(&[0, 0, 0, body.len() as u8]);
+        v.extend_from_slice(&body);
+        return (v.clone(), v);
+    }
     if cfg.audio % 8 == 7 {
         let code = g.shape & 3;
         let og = OpusGene {
@@ -839,7 +885,19 @@ pub fn lower(c: &ValidCase) -> Lowered {
         let at = 1 + (pos as usize) % ops.len();
         let prev_video = ops[..at].iter().rev().find(|o| o.is_video()).cloned();
         let prev_audio = ops[..at].iter().rev().find(|o| matches!(o, COp::Audio { .. })).cloned();
-        let junk = match (kind % 5, prev_video, prev_audio) {
+        let first_video_pts = ops.iter().find_map(|o| match o {
+            COp::Video { pts, .. } | COp::VideoDts { pts, .. } => Some(*pts),
+            _ => None,
+        });
+        let junk = match (kind % 7, prev_video, prev_audio) {
+            // kind 6: audio one tick before the first video frame's presentation time (whatever was written since): rejected
+            (6, _, Some(COp::Audio { data, .. })) if has_audio && first_video_pts.map(|p| p > 2.0 / 90000.0).unwrap_or(false) => {
+                Some(COp::Audio { pts: first_video_pts.unwrap() - 1.0 / 90000.0, data })
+            }
+            // kind 5: a reordered frame (pts != dts) whose decode time does not advance: rejected by the writer, and whatever its
+            // composition offset was must leave no trace
+            (5, Some(COp::Video { pts, data, .. }), _) => Some(COp::VideoDts { pts: pts + 0.1, dts: pts, data, key: false }),
+            (5, Some(COp::VideoDts { dts, data, .. }), _) => Some(COp::VideoDts { pts: dts + 0.2, dts, data, key: false }),
             (0, Some(COp::Video { pts, data, .. }), _) => Some(COp::Video { pts, data, key: false }),
             (0, Some(COp::VideoDts { pts, dts, data, .. }), _) => Some(COp::VideoDts { pts, dts, data, key: false }),
             (1, Some(COp::Video { pts, .. }), _) => Some(COp::Video { pts: pts + 1.0, data: vec![], key: false }),
@@ -852,7 +910,7 @@ pub fn lower(c: &ValidCase) -> Lowered {
         if let Some(j) = junk {
             // an Opus "packet" 0x12.. is a valid TOC; make the junk invalid for Opus too: code 3 with count 0
             let j = match j {
-                COp::Audio { pts, data } if cfg.audio == 7 && kind % 5 == 2 => COp::Audio { pts, data: vec![0x03, 0x00, data[2]] },
+                COp::Audio { pts, data } if cfg.audio == 7 && kind % 7 == 2 => COp::Audio { pts, data: vec![0x03, 0x00, data[2]] },
                 other => other,
             };
             ops.insert(at, j);
@@ -1073,7 +1131,7 @@ pub fn cfg_strategy() -> impl Strategy<Value = CfgGene> {
         prop_oneof![3 => 16u16..2161, 1 => 1u16..=65535],
         any::<bool>(),
         option::weighted(0.3, title_strategy()),
-        option::weighted(0.3, prop_oneof![0u64..4_102_444_800, 0u64..253_402_300_800]),
+        option::weighted(0.3, prop_oneof![8 => 0u64..4_102_444_800, 8 => 0u64..253_402_300_800, 1 => 253_402_300_800u64..=u64::MAX, 1 => Just(1_759_536_000_000u64), 1 => Just(253_402_300_800u64)]),
         option::weighted(0.3, lang_strategy()),
         option::weighted(0.6, av1_seq_strategy()),
         vp9_key_strategy(),
@@ -1133,7 +1191,7 @@ pub fn valid_case_strategy(maxv: usize, maxa: usize) -> impl Strategy<Value = Va
         option::weighted(0.2, 0u8..12),
         0u8..3,
         0u8..24,
-        (0u8..5, prop_oneof![1 => Just(Vec::new()), 1 => vec((any::<u8>(), 0u8..5), 1..4)]),
+        (0u8..5, prop_oneof![1 => Just(Vec::new()), 1 => vec((any::<u8>(), 0u8..7), 1..4)]),
     )
         .prop_map(|((reorder, cfg), v_start, a_off, video, audio, const_rate, fps_mode, use_dts, order, (finish, rejects))| ValidCase {
             cfg,
@@ -1192,6 +1250,14 @@ pub fn valid_case_strategy(maxv: usize, maxa: usize) -> impl Strategy<Value = Va
                     for (k, g) in c.audio.iter_mut().enumerate() {
                         g.dpts = (nominal + if k % 7 == 6 { 0 } else { e }).max(1) as u32;
                         g.jit = 0;
+                    }
+                }
+                // a constant decoder delay: every frame is presented c ticks after it is decoded (no reordering)
+                if r % 100 >= 18 && r % 100 < 21 && c.fps_mode.is_none() {
+                    let d = [1i64, 3000, 6000, 2][(r as usize >> 8) % 4];
+                    c.reorder = true;
+                    for g in c.video.iter_mut() {
+                        g.cts = d;
                     }
                 }
                 // dictionary: timestamps whose bytes spell a box type (a byte search for a fourcc must not hit them)
